@@ -130,7 +130,12 @@ class C13World(object):
                            'subseed': rng.getrandbits(31), 'rng': rng.choice(['values', 'values', 'rng'])})
             if numbered and bad is None and rng.random() < 0.25:
                 events[-1]['bad_instance'] = rng.choice(['a_{05}', 'a_{-05}', 'a_{1.0}', 'A_{1}', 'a_{+1}', 'a_1'])
-        return {'world': 'c13', 'ind': ind, 'numbered': numbered, 'vector': vector, 'deps': deps,
+        uconst = {}
+        if rng.random() < 0.35:
+            uconst['c0'] = rng.choice([2.5, -1.25, 10])
+            if rng.random() < 0.5:
+                uconst['pi'] = 3.0            # the author overrides a default constant
+        return {'world': 'c13', 'uconst': uconst, 'ind': ind, 'numbered': numbered, 'vector': vector, 'deps': deps,
                 'bad': bad, 'samples': samples, 'shadow_e': shadow_e, 'events': events, 'collide': collide,
                 'two_answers': rng.random() < 0.15, 'fault_free': bad is None}
 
@@ -173,7 +178,7 @@ class Run(object):
         m = self.lib.mitx
         SimSampler = seams.sim_classes()['SimSampler']
         self.scalars = list(j['ind']) + list(j['numbered']) + [d['name'] for d in j['deps']]
-        consts = ['pi'] + ([] if j['shadow_e'] else ['e'])
+        consts = ['pi'] + ([] if j['shadow_e'] else ['e']) + (['c0'] if 'c0' in j.get('uconst', {}) else [])
         self.probe_args = self.scalars + consts
         ufs = {'probe': self.make_probe('probe', len(self.probe_args)),
                'probe2': self.make_probe('probe2', len(self.probe_args))}
@@ -207,6 +212,10 @@ class Run(object):
                            mode=ev['rng'], lo=7.0, hi=8.0)
             s.env = self.env
             sf['a'] = s
+        if j.get('uconst'):
+            cfg['user_constants'] = dict(j['uconst'])
+            if 'pi' in j['uconst']:
+                cfg['suppress_warnings'] = True
         if j['shadow_e']:
             cfg['suppress_warnings'] = True
         total = '+'.join(self.scalars)
@@ -234,6 +243,13 @@ class Run(object):
                     return sum(x * x for x in w)
                 fn = FORMS[d['form']][2]
                 args = [self.pyval(o, vals, depth + 1) for o in d['ops']]
+                pi_val = j.get('uconst', {}).get('pi', math.pi)
+                if pi_val != math.pi and 'pi' in FORMS[d['form']][0]:
+                    if FORMS[d['form']][0] == '{0}+pi':
+                        vals[name] = args[0] + pi_val
+                    else:
+                        vals[name] = pi_val * 2
+                    return vals[name]
                 if FORMS[d['form']][0] == '{0}*e' and j['shadow_e']:
                     # the constant e is shadowed by the variable named e
                     vals[name] = args[0] * self.pyval('e', vals, depth + 1)
@@ -350,8 +366,12 @@ class Run(object):
             if j['vector']:
                 wrec = handed['smp.w'][k]
                 vals['w'] = [self.num(x) for x in wrec['v']]
-            if row['pi'] != math.pi or ('e' in row and not j['shadow_e'] and row['e'] != math.e):
-                self.violate('complete', i, 'sample %d: constants pi/e have values %r/%r' % (k, row['pi'], row.get('e')))
+            want_pi = j.get('uconst', {}).get('pi', math.pi)
+            if row['pi'] != want_pi or ('e' in row and not j['shadow_e'] and row['e'] != math.e):
+                self.violate('complete', i, 'sample %d: constants pi/e have values %r/%r (pi should be %r)'
+                             % (k, row['pi'], row.get('e'), want_pi))
+            if 'c0' in row and row['c0'] != j['uconst']['c0']:
+                self.violate('complete', i, 'sample %d: user constant c0=%r, configured %r' % (k, row['c0'], j['uconst']['c0']))
             for idx, d in enumerate(j['deps']):
                 want = self.pyval(d['name'], vals)
                 got = row[d['name']]
